@@ -85,6 +85,14 @@ func c13CheckErr(a *ChildArgs, ep, input string, err error, lexical bool, limit 
 		return sh
 	}
 	a.Rec.Distinct("error_shapes", ep+"|"+sh.Code+"|"+normMsg(sh.Msg))
+	// the library's own classification helpers must agree with standard unwrapping on the error exactly as it was
+	// returned (the entry points wrap their structured error)
+	if !goerrors.IsStructuredError(err) || string(goerrors.GetCode(err)) != sh.Code || !goerrors.IsCode(err, goerrors.ErrorCode(sh.Code)) {
+		a.Rec.Viol("C13/"+ep+"/helpers-disagree/"+sh.Code, "every failure is classifiable by its code", fmt.Sprintf("errors.As finds code %s; IsStructuredError=%v GetCode=%q IsCode=%v",
+			sh.Code, goerrors.IsStructuredError(err), goerrors.GetCode(err), goerrors.IsCode(err, goerrors.ErrorCode(sh.Code))), wit)
+	} else if c, ok := goerrors.ExtractErrorCode(err); !ok || string(c) != sh.Code {
+		a.Rec.Viol("C13/"+ep+"/helpers-disagree/extract-"+sh.Code, "every failure is classifiable by its code", fmt.Sprintf("ExtractErrorCode=%q,%v for code %s", c, ok, sh.Code), wit)
+	}
 	if !documentedCodes[sh.Code] {
 		a.Rec.Viol("C13/"+ep+"/undocumented-code/"+sh.Code, "the code is a documented one", "code "+sh.Code+" is not both in errors.go and docs/ERROR_CODES.md", wit)
 	}
@@ -190,6 +198,11 @@ func c13Input(a *ChildArgs, input, limit string) {
 			if errors.As(e, &pe) {
 				if pe.Cause == nil || errors.Unwrap(pe) != pe.Cause {
 					a.Rec.Viol("C13/"+ep.Name+"/cause-unreachable", "wrapped causes remain reachable", "ParseError without reachable cause", map[string]interface{}{"input": trunc(input, 300)})
+				}
+				// a located ParseError wraps a located cause: a caller who unwraps to the structured error must not find 0:0
+				var ce *goerrors.Error
+				if pe.Line > 0 && errors.As(pe.Cause, &ce) && ce.Location.Line == 0 && ce.Location.Column == 0 {
+					a.Rec.Viol("C13/"+ep.Name+"/cause-unlocated/"+string(ce.Code), "a set location lies within the input", fmt.Sprintf("ParseError at %d:%d wraps %s at 0:0", pe.Line, pe.Column, ce.Code), map[string]interface{}{"input": trunc(input, 300)})
 				}
 			}
 		}
